@@ -6,8 +6,9 @@ import itertools
 
 U32 = 4294967295
 U64 = 18446744073709551615
+I64MIN = -9223372036854775808   # the smallest number 64 bits hold (anything below is 'beyond 64 bits', C11)
 
-NUMS = [0, 1, U32, U32 + 1, U64, -1, -U32, -(U32 + 1), -U64]
+NUMS = [0, 1, U32, U32 + 1, U64, -1, -U32, -(U32 + 1), I64MIN]
 LITS = ["'ff'H", "''H", "'0aF9'h", "'0101'B", "''B", "'11111111'b"]
 
 
@@ -70,7 +71,7 @@ V1_SYNTAXES = [('app', 'NetworkAddress')]
 # numeric token classes at their boundaries, every literal class
 for v in NUMS:
     SYNTAXES.append(('simple', 'INTEGER', ('range', [(v,)])))
-for a, b in [(-U64, U64), (-(U32 + 1), U32 + 1), (0, U32), (-U32, -1)]:
+for a, b in [(I64MIN, U64), (-(U32 + 1), U32 + 1), (0, U32), (-U32, -1)]:
     SYNTAXES.append(('simple', 'INTEGER', ('range', [(a, b)])))
 for lit in LITS:
     SYNTAXES.append(('simple', 'INTEGER', ('range', [(lit,)])))
